@@ -226,6 +226,21 @@ pub fn range_wrappers(map: &Map<Vec<u8>>, set: &Set<Vec<u8>>, calls: &[(u8, Vec<
     let note = || apply_calls_note(calls);
     want!(drain!("Map::range stream", bounded!(map.range(), calls).into_stream(), (k, v) => (k.to_vec(), v)) == *got, "Map::range next-loop differs from the raw range for {}", note());
     want!(drain!("Set::range stream", bounded!(set.range(), calls).into_stream(), k => k.to_vec()) == keys, "Set::range differs from the keys of the raw range for {}", note());
+    // the range builders that carry automaton states (search_with_state) with the automaton that accepts
+    // everything: the same bounds must select the same entries
+    {
+        use fst::automaton::AlwaysMatch;
+        let vm = drain!("Map::search_with_state(AlwaysMatch) stream", bounded!(map.search_with_state(AlwaysMatch), calls).into_stream(), (k, v, _s) => (k.to_vec(), v));
+        want!(vm == *got, "Map::search_with_state(AlwaysMatch) with bounds differs from the raw range for {}", note());
+        let vs = drain!("Set::search_with_state(AlwaysMatch) stream", bounded!(set.search_with_state(AlwaysMatch), calls).into_stream(), (k, _s) => k.to_vec());
+        want!(vs == keys, "Set::search_with_state(AlwaysMatch) with bounds differs from the keys of the raw range for {}", note());
+        let vr = drain!("raw search_with_state(AlwaysMatch) stream", bounded!(map.as_fst().search_with_state(AlwaysMatch), calls).into_stream(), (k, v, _s) => (k.to_vec(), v.value()));
+        want!(vr == *got, "raw Fst::search_with_state(AlwaysMatch) with bounds differs from the raw range for {}", note());
+        let vq = drain!("Map::search(AlwaysMatch) stream", bounded!(map.search(AlwaysMatch), calls).into_stream(), (k, v) => (k.to_vec(), v));
+        want!(vq == *got, "Map::search(AlwaysMatch) with bounds differs from the raw range for {}", note());
+        let vt = drain!("Set::search(AlwaysMatch) stream", bounded!(set.search(AlwaysMatch), calls).into_stream(), k => k.to_vec());
+        want!(vt == keys, "Set::search(AlwaysMatch) with bounds differs from the keys of the raw range for {}", note());
+    }
     if full {
         let vals = vals_of(got);
         want!(bounded!(set.range(), calls).into_stream().into_bytes() == keys, "Set::range..into_bytes differs from the keys of the raw range for {}", note());
@@ -382,5 +397,62 @@ pub fn node_walk(f: &Fst<Vec<u8>>, kvs: &Kvs, cap: usize) -> Result<(), String> 
         want!(n.is_final() && out.cat(n.final_output()).value() == *v, "manual lookup of key {} through find_input/transition/transition_addr gives {} (final={}), stream() says {}", hex(k), out.cat(n.final_output()).value(), n.is_final(), v);
     }
     xcount("node_manual_lookup");
+    Ok(())
+}
+
+// ---------------------------------------------------------------------------------------
+// the same accepted sequence streamed to writers that behave in unusual but legal ways
+// ---------------------------------------------------------------------------------------
+
+/// A writer that makes bytes visible (`committed`) only when it is flushed, and does not flush when dropped.
+pub struct StagingSink {
+    pub committed: Vec<u8>,
+    pub pending: Vec<u8>,
+    pub cap: usize,
+}
+impl std::io::Write for StagingSink {
+    fn write(&mut self, b: &[u8]) -> std::io::Result<usize> {
+        let n = if self.cap == 0 { b.len() } else { b.len().min(self.cap) };
+        self.pending.extend_from_slice(&b[..n]);
+        Ok(n)
+    }
+    fn flush(&mut self) -> std::io::Result<()> {
+        self.committed.append(&mut self.pending);
+        Ok(())
+    }
+}
+
+/// `ops` (all of them accepted) built with `raw::Builder::new_type` on a writer LENT by `&mut`, then inspected
+/// right after `finish()` with no further flush or drop: a short-writing writer (1 byte per call), one that also
+/// interrupts, a writer that commits only on flush, and a `BufWriter` looked at through `get_ref()`.  Each must
+/// hold exactly the bytes of the in-memory build.
+pub fn sink_routes(ty: u64, ops: &[Op], bytes: &[u8]) -> Result<(), String> {
+    fn drive<W: std::io::Write>(w: W, ty: u64, ops: &[Op]) -> Result<(), String> {
+        let mut b = fst::raw::Builder::new_type(w, ty).map_err(|e| format!("Builder::new_type on a sink: {}", e))?;
+        for o in ops {
+            let r = match o {
+                Op::Add(k) => b.add(k),
+                Op::Insert(k, v) => b.insert(k, *v),
+            };
+            r.map_err(|e| format!("streamed build: an accepted call fails: {}", e))?;
+        }
+        b.finish().map_err(|e| format!("streamed build: finish fails: {}", e))
+    }
+    for (cap, intr) in [(1usize, 0usize), (3, 4)] {
+        let mut s = crate::c08::CapSink::new(cap, intr);
+        drive(&mut s, ty, ops)?;
+        want!(s.buf == bytes, "Builder::new(&mut writer taking {} byte(s) per call{}): the writer holds other bytes than the in-memory build", cap, if intr > 0 { ", interrupting" } else { "" });
+    }
+    for cap in [0usize, 5] {
+        let mut s = StagingSink { committed: vec![], pending: vec![], cap };
+        drive(&mut s, ty, ops)?;
+        want!(s.pending.is_empty() && s.committed == bytes, "Builder::finish() on a writer that commits on flush: {} bytes committed, {} bytes written after the last flush, in-memory build has {}", s.committed.len(), s.pending.len(), bytes.len());
+    }
+    {
+        let mut bw = std::io::BufWriter::with_capacity(7 + bytes.len() % 23, Vec::new());
+        drive(&mut bw, ty, ops)?;
+        want!(bw.get_ref() == bytes, "Builder::finish() on &mut BufWriter: get_ref() holds {} bytes right after finish, the in-memory build has {}", bw.get_ref().len(), bytes.len());
+    }
+    xcount("sink_routes_short_interrupt_staging_bufwriter");
     Ok(())
 }
